@@ -113,6 +113,15 @@ func drawRunes(r *tape.Rand, n int, ascii bool) []rune {
 			}
 		}
 	}
+	if !ascii && n > 0 && r.Intn(6) == 0 {
+		// characters a decoder might be tempted to treat specially: U+FEFF is a
+		// legal character of an mluc string (there is no byte-order-mark
+		// convention: the encoding is UTF-16BE by definition), as are the
+		// noncharacter U+FFFE, zero-width and no-break spaces and separators
+		sp := [...]rune{0xFEFF, 0xFEFF, 0xFFFE, 0x200B, 0xA0, 0x2028, 0xFFFD}[r.Intn(7)]
+		pos := [...]int{0, 0, n - 1, r.Intn(n)}[r.Intn(4)]
+		out[pos] = sp
+	}
 	return out
 }
 
